@@ -484,6 +484,16 @@ namespace occa {
       return ref->toJson(j, name);
     }
 
+    // Builtins are the objects returned by getBuiltin, not whatever shares their name
+    if ((this != &dtype::none) &&
+        (this == &dtype_t::getBuiltin(name_))) {
+      j.clear();
+      j.asObject();
+      j["type"] = "builtin";
+      j["name"] = name_;
+      return;
+    }
+
     if (enum_) {
       return enum_->toJson(j, name);
     } else if (struct_) {
@@ -496,15 +506,9 @@ namespace occa {
 
     j.clear();
     j.asObject();
-    const dtype_t &dtype = dtype_t::getBuiltin(name_);
-    if (&dtype != &dtype::none) {
-      j["type"] = "builtin";
-      j["name"] = name_;
-    } else {
-      j["type"]  = "custom";
-      j["name"]  = name_;
-      j["bytes"] = bytes_;
-    }
+    j["type"]  = "custom";
+    j["name"]  = name_;
+    j["bytes"] = bytes_;
   }
 
   dtype_t dtype_t::fromJson(const std::string &str) {
